@@ -227,6 +227,11 @@ func (r *Response) Encode(writer io.Writer) error {
 	if r.Message != "" {
 		parts[0] += " " + r.Message
 	}
+	if len(parts[0]) > MaxRequestLength {
+		// the decoder (and other saslauthd clients) won't accept longer parts, so
+		// rather truncate the message than send a response nobody can read
+		parts[0] = parts[0][:MaxRequestLength]
+	}
 	return encodeLengthEncodedStrings(writer, parts)
 }
 
@@ -236,6 +241,9 @@ func (r *Response) Marshal() (data []byte, err error) {
 	blen := 2 + 2
 	if r.Message != "" {
 		blen += 1 + len(r.Message)
+	}
+	if blen > 2+MaxRequestLength {
+		blen = 2 + MaxRequestLength // see Encode()
 	}
 	data = make([]byte, blen)
 	buf := bytes.NewBuffer(data[:0])
